@@ -82,18 +82,17 @@ def run(ctx):
             continue
         fields = e.get("fields", [])
         vars_ = e.get("vars", [])
-        # the fields responsible: those that are flagged the same way on their own
+        # the fields responsible: for content, the changed options that alter the view of a real
+        # build on their own; for metadata, the fields of the metadata view that are wrong
         if why in CONTENT_WHYS:
             resp = [f for f, v in zip(fields, vars_) if affecting.get((e["base"], f, v))]
+        elif "view_fields" in r["expected"]:
+            resp = list(r["expected"]["view_fields"])
         else:
             resp = [f for f in fields if single_flag.get((why, e["base"], f))]
         if not resp:
             resp = fields
         sig = "C38:%s:%s" % (why, "+".join(sorted(set(resp)))) if resp else "C38:%s" % why
-        if why == "equal-but-metadata-differs" and fields == ["RawConfig"] and vars_ == ["removed"]:
-            sig = "C38:equal-but-metadata-differs:RawConfig-key-removed"
-        if why == "equal-but-metadata-differs" and "RawConfig" in resp and "removed" in vars_ and len(fields) > 1:
-            sig = "C38:%s:%s" % (why, "+".join(sorted(set(x if x != "RawConfig" else "RawConfig-key-removed" for x in resp))))
         a = bases[e["base"]]
         detail = {"line": r["line"], "why": why, "base": e["base"], "changed": dict(zip(fields, vars_)), "fault": e["fault"],
                   "state": e["state"], "skip": e["skip"], "expected": r["expected"],
